@@ -167,8 +167,18 @@ let linalg_query (toks : string list) : string =
     let norm_a = List.fold_left (fun a r -> Float.max a (List.fold_left (fun s (_, v) -> s +. Float.abs (float_of_q (qt v))) 0.0 r)) 0.0 rows in
     let piv = List.map (fun v -> Float.abs (float_of_q (qt v))) (q_pivots lu) in
     let minp = List.fold_left Float.min infinity piv in
-    verdict ~n ~wellcond:(wc = "1") ~x_impl ~x_model ~resid ~norm_a ~bmax:(fmax (List.map fl b))
-      ~extra:(Printf.sprintf " minpivot=%.3e" minp) ()
+    (* row-wise backward error: rows scaled over many orders of magnitude must each be solved (the matrices are strictly
+       row dominant, for which elimination without pivoting is row-scaling invariant) *)
+    let bf = List.map fl b in
+    let roww = List.fold_left2 (fun acc (row, ri) bi ->
+        let den = List.fold_left (fun s (cidx, v) -> s +. Float.abs (float_of_q (qt v)) *. Float.abs (List.nth x_impl (int_of_z cidx))) (Float.abs bi) row in
+        Float.max acc (Float.abs (float_of_q (qt ri)) /. Float.max den 1e-300)) 0.0 (List.combine rows resid) bf in
+    let v = verdict ~n ~wellcond:(wc = "1") ~x_impl ~x_model ~resid ~norm_a ~bmax:(fmax (List.map fl b))
+      ~extra:(Printf.sprintf " minpivot=%.3e rowwise=%.3e" minp roww) () in
+    let tol_r = float_of_int (max n 4) *. 4096.0 *. eps in
+    if roww > tol_r && String.length v >= 8 && String.sub v 0 8 = "CHECK ok" then
+      "CHECK FAIL row-wise backward error" ^ String.sub v 8 (String.length v - 8)
+    else v
   | "PROP" :: _ -> "ok"
   | _ -> "?unknown-query"
 
